@@ -12,10 +12,11 @@ ASSUME = [
 PLANS = {
     "C01": dict(
         quick=dict(mc=["core2"], gens=[dict(maxlog=2, num=60, depth=24, lean=True, focus="commit")],
-                   per_beh=2, fs=[1, 3, 25], vts=["tiny", "edge", "ovf", "empty", "big"], embs=api.EMBEDDINGS_QUICK),
+                   per_beh=3, fs=[1, 3, 25, 60], vts=["tiny", "edge", "ovf", "empty", "big", "mixed", "mixed2"],
+                   embs=api.EMBEDDINGS_QUICK),
         thorough=dict(mc=["core", "core2"], gens=[dict(maxlog=2, num=600, depth=30, lean=True, focus="commit"),
                                                   dict(maxlog=3, num=300, depth=30, lean=False, focus="commit")],
-                      per_beh=4, fs=[1, 3, 25, 400], vts=["tiny", "edge", "ovf", "empty", "big", "huge"],
+                      per_beh=4, fs=[1, 3, 25, 60, 400], vts=["tiny", "edge", "ovf", "empty", "big", "huge", "mixed", "mixed2"],
                       embs=api.EMBEDDINGS_ALL)),
     "C02": dict(
         quick=dict(mc=["core2"], gens=[dict(maxlog=2, num=60, depth=24, lean=True, focus="commit")],
